@@ -851,6 +851,15 @@ namespace sim
 			// called when a packet is dropped
 			void packet_dropped(aux::packet p);
 
+			// have drops of this packet reported to packet_dropped()
+			void report_drops(aux::packet& p);
+
+			// retransmit dropped packets, as far as the congestion window allows
+			void resend_packets();
+
+			// retransmit later, when no ACK is expected that would trigger it
+			void schedule_resend();
+
 			aux::function<void(boost::system::error_code const&)> m_connect_handler;
 
 			asio::high_resolution_timer m_connect_timer;
@@ -881,6 +890,9 @@ namespace sim
 			std::vector<asio::mutable_buffer> m_recv_buffer;
 
 			asio::high_resolution_timer m_recv_timer;
+
+			// retransmission timer, see schedule_resend()
+			asio::high_resolution_timer m_resend_timer;
 
 			// our address family
 			bool m_is_v4 = true;
